@@ -174,8 +174,8 @@ func c07Default(c *cx) {
 			case eng.DefZero:
 			case eng.DefTuple:
 				src := f.Norm(d.RHS, &d.At)
-				if !eng.Glob("jid.Parse(internal/attr.Get(*.Attr,\"from\")#1)", src) || d.Index != 0 {
-					okTo, why = false, "To is defined by "+src
+				if !eng.Glob("jid.Parse(internal/attr.Own(*.Attr,\"from\")#1)", src) || d.Index != 0 {
+					okTo, why = false, "To is defined by "+src+" (want jid.Parse of the element's own, unqualified from attribute: internal/attr.Get matches x:from of a foreign namespace as well)"
 				}
 			default:
 				okTo, why = false, "To is defined by "+c.p.NodeStr(d.Node)
@@ -184,7 +184,23 @@ func c07Default(c *cx) {
 	}
 	c.r.Check(id, f, "default reply addressee", "P: the reply is addressed to the parsed 'from' of the request (absent when the request named none)", iq.Pos(), okTo, why)
 	// when a from is present, the parse happens on every path to the reply
-	for _, ce := range g.EdgesMatching("!eq(internal/attr.Get(*.Attr,\"from\")#1,\"\")") {
+	// the sender is read before the handler is handed &start (a handler may
+	// rewrite the start element, e.g. to forward it)
+	nFrom := 0
+	for _, cl := range f.Calls("internal/attr.Own") {
+		if len(cl.Args) != 2 {
+			continue
+		}
+		if s, ok := f.ConstStr(cl.Args[1]); !ok || s != "from" {
+			continue
+		}
+		nFrom++
+		fpt, _ := g.Where(cl)
+		c.r.Check(id, f, "sender read before the handler runs", "O: the from attribute used for the default reply is read on every path before Handler.HandleXMPP gets the start element, and never after it", cl.Pos(), g.MustPassBefore(g.Entry(), hpt, func(q eng.Point, nd ast.Node) bool { return containsNode(nd, cl) }, nil) && !g.Reachable(g.After(hpt), fpt, nil, nil), "the sender is (also) read after the handler had access to the start element")
+	}
+	c.r.Floor(id, "reads of the request's sender", nFrom, 1)
+	ownAttrLookups(c, id, func(x *eng.Fn) bool { return x == f })
+	for _, ce := range g.EdgesMatching("!eq(internal/attr.Own(*.Attr,\"from\")#1,\"\")") {
 		from := g.EdgeTarget(ce.E)
 		isParse := func(q eng.Point, nd ast.Node) bool { return f.ContainsCall(nd, "jid.Parse") != nil }
 		c.r.Check(id, f, "from parsed before the reply", "O: a non-empty from is parsed (and stored as To) before the reply is written", cp.Pos(), g.MustPassBefore(from, cpt, isParse, nil), "reply reachable with a non-empty from that was not parsed")
